@@ -35,7 +35,9 @@ Base == [camel |-> FALSE, query |-> "Query", mutation |-> "", subscription |-> "
     [k |-> "object", name |-> "Query", ifaces |-> <<>>, desc |-> "the root", dres |-> "", rt |-> "",
        fields |-> << Fld(<<"user", "name">>, Named("String"), <<>>, "user_name", "r_user_name", ""),
                      Fld(<<"node">>, Named("Node"), <<ArgD(<<"node", "id">>, Named("ID"), "node_id", [k |-> "str", v |-> "n1"])>>, "node", "r_node", ""),
-                     Fld(<<"find", "items">>, ListOf(Named("Item")), <<Arg(<<"filter", "by">>, Named("Filter"), "filter_by")>>, "find_items", "r_find", "old way"),
+                     Fld(<<"find", "items">>, ListOf(Named("Item")), <<Arg(<<"filter", "by">>, Named("Filter"), "filter_by"),
+                                                                        \* an explicit null default is a default (hasDef), not the absence of one
+                                                                        ArgD(<<"max", "count">>, Named("Int"), "max_count", NoDef)>>, "find_items", "r_find", "old way"),
                      Fld(<<"find", "any">>, Named("U"), <<>>, "find_any", "", ""),
                      Fld(<<"any">>, Named("U"), <<>>, "any", "", ""),
                      Fld(<<"level">>, Named("Level"), <<>>, "level", "r_level", ""),
@@ -55,12 +57,14 @@ Base == [camel |-> FALSE, query |-> "Query", mutation |-> "", subscription |-> "
     [k |-> "enum", name |-> "Level", values |-> << [name |-> "LOW", dep |-> ""], [name |-> "HIGH", dep |-> "too high"] >>, desc |-> ""],
     [k |-> "input", name |-> "Filter", desc |-> "",
        fields |-> << ArgD(<<"min", "size">>, Named("Int"), "min_size", [k |-> "int", v |-> "1"]), Arg(<<"tags">>, ListOf(Named("String")), "tags"),
-                     Arg(<<"min", "level">>, Named("Level"), "min_level") >>],
+                     Arg(<<"min", "level">>, Named("Level"), "min_level"), ArgD(<<"only", "tag">>, Named("String"), "only_tag", NoDef) >>],
     [k |-> "object", name |-> "Sub", ifaces |-> <<>>, desc |-> "", dres |-> "", rt |-> "",
        \* a subscription field (resolver id r_sub: the harness also installs the subscription resolver sub_r_sub) WITH an argument:
        \* transforms that rewrite the argument rebuild the field and must keep both resolvers
        fields |-> << Fld(<<"item", "added">>, Named("Item"), <<Arg(<<"min", "level">>, Named("Level"), "min_level")>>, "item_added", "r_sub", "") >>] >>,
-  directives |-> << [name |-> "my_dir", locs |-> <<"FIELD">>, args |-> <<Arg(<<"some", "arg">>, Named("Int"), "some_arg")>>] >>]
+  \* a directive argument typed by a user-defined enum: its type reference must be the registered object in every schema
+  directives |-> << [name |-> "my_dir", locs |-> <<"FIELD">>, args |-> <<Arg(<<"some", "arg">>, Named("Int"), "some_arg"),
+                                                                           Arg(<<"at", "level">>, Named("Level"), "at_level")>>] >>]
 
 RECURSIVE Inner(_)
 Inner(t) == IF t.k = "named" THEN t.n ELSE Inner(t.of)
